@@ -109,7 +109,7 @@ class C13(Check):
     rule = (
         "cases: (a) histories of 0..12 (quick) / 0..30 (thorough) generated request documents (C01-C04 corpus: valid, failing, batch, "
         "rejected, non-JSON) served by one dispatcher, followed by a probe request whose response document and codes are compared with the "
-        "probe served by a fresh dispatcher built from the same spec; (b) retention: N in {1, 10, 1000} dispatches, a fresh weak-"
+        "probe served by a fresh dispatcher built from the same spec - also for same-named functions with different annotations that share one PydanticValidator instance; (b) retention: N in {1, 10, 1000} dispatches, a fresh weak-"
         "referenceable context object each, for function methods and class based view methods x validator {base, jsonschema, pydantic} x "
         "sync / async x request kinds (ok, notification, raises, does not bind / validate, unknown, rejected, batch, non-JSON): after gc no "
         "context object and no view instance is alive; (c) 2..16 threads dispatching rotated corpora through one shared dispatcher with "
@@ -123,7 +123,7 @@ class C13(Check):
     ]
     trusted_base = ['python gc / weakref', 'pbt/refserver.py (class labels only)']
     required_classes = ['history/nontrivial', 'retention/func', 'retention/view', 'retention/base', 'retention/jsonschema', 'retention/pydantic',
-                        'retention/n=1000', 'threads/run']
+                        'retention/n=1000', 'threads/run', 'vhistory/two-methods-before-probe']
 
     # ---- generation -------------------------------------------------------------------------------------
 
@@ -147,7 +147,10 @@ class C13(Check):
             st.sampled_from(['sync', 'async']), st.sampled_from(['base', 'jsonschema', 'pydantic']), st.sampled_from(['func', 'view']),
             st.sampled_from([1, 10, 10, 30]), st.lists(st.sampled_from(sorted(RETENTION_REQUESTS)), min_size=1, max_size=4),
         )
-        return st.one_of(hist('sync'), hist('async'), hist('sync'), hist('async'), retention, retention, threads('sync'))
+        vcall = st.tuples(st.sampled_from(['users.get', 'posts.get', 'users.get_many']), st.sampled_from([[1], ['1'], ['x'], [[1, 2]], [None], [], [1.5], [{'a': 1}]]))
+        vhistory = st.builds(lambda d, h, p, c: {'kind': 'vhistory', 'dispatcher': d, 'history': [list(x) for x in h], 'probe': list(p), 'coerce': c},
+                             st.sampled_from(['sync', 'async']), st.lists(vcall, max_size=6), vcall, st.booleans())
+        return st.one_of(hist('sync'), hist('async'), hist('sync'), hist('async'), retention, retention, threads('sync'), vhistory)
 
     def enumerate(self, tier: str):
         # the N = 1000 matrix: flavour x validator x dispatcher (12 cells)
@@ -225,6 +228,42 @@ class C13(Check):
         if nontrivial:
             classes.append('history/nontrivial')
         return Outcome(discs, nontrivial, classes, evaluations=len(spec['history']) + 2)
+
+    def _vdispatcher(self, spec):
+        """same-named functions from different 'modules' sharing one PydanticValidator instance"""
+        import pjrpc.server
+        from typing import List as L
+        from pjrpc.server.validators import pydantic as vp
+        v = vp.PydanticValidator(coerce=spec['coerce'])
+        is_async = spec['dispatcher'] == 'async'
+        d = pjrpc.server.AsyncDispatcher() if is_async else pjrpc.server.Dispatcher()
+
+        def make(ann, tag):
+            ns = {'T': ann}
+            exec(("async " if is_async else "") + f"def get(ident: T):\n    return ['{tag}', type(ident).__name__, ident]\n", ns)
+            return v.validate(ns['get'])
+        d.add(make(int, 'users'), 'users.get')
+        d.add(make(str, 'posts'), 'posts.get')
+        d.add(make(L[int], 'many'), 'users.get_many')
+        return d
+
+    def _run_vhistory(self, spec) -> Outcome:
+        kind = spec['dispatcher']
+
+        def ask(d, call):
+            text = json.dumps({'jsonrpc': '2.0', 'id': 1, 'method': call[0], 'params': call[1]})
+            return hm.run_dispatch(kind, d, text, None)
+        fresh = ask(self._vdispatcher(spec), spec['probe'])
+        d = self._vdispatcher(spec)
+        for call in spec['history']:
+            ask(d, call)
+        after = ask(d, spec['probe'])
+        discs = []
+        if fresh != after:
+            discs.append(Disc("C13/history/probe-response-depends-on-history", f"fresh {fresh!r} after history {after!r} | probe {spec['probe']} history {spec['history']} "
+                                                                               f"(same-named functions sharing one PydanticValidator, coerce={spec['coerce']})"))
+        nontrivial = len({c[0] for c in spec['history']}) >= 2
+        return Outcome(discs, nontrivial, ['vhistory/any'] + (['vhistory/two-methods-before-probe'] if nontrivial else []), evaluations=len(spec['history']) + 2)
 
     def _run_retention(self, spec) -> Outcome:
         kind = spec['dispatcher']
